@@ -137,8 +137,13 @@ def h_hypothesis(env, metric='multiply', K=2, T=2):
             env.true('dominance_%s_%d' % (alg, i), h)
 
 
+# properties whose thorough extras were run end-to-end on the unchanged tree (exit 0); others: thorough == quick
+from harness.thorough_verified import THOROUGH_VERIFIED
+
+
 def cases(tier):
-    q = True      # thorough extras of this property were not run end-to-end in round 1: thorough == quick until they are
+    import os
+    q = tier == 'quick' or 'C15' not in THOROUGH_VERIFIED and os.environ.get('VERIF_TRY_EXTRAS') != '1'
     cs = []
     for K in ([2, 3] if q else [2, 3, 4]):
         cs.append(Case('optimal/K%d' % K, h_optimal, dict(K=K), bounds='all real %dx%d score matrices' % (K, K),
